@@ -83,23 +83,106 @@ Proof. exact (conj consistent_init mconsistent_init). Qed.
 Print Assumptions C08_consistent_init.
 
 (* consistent_step, one version: ingest, mutating write, POST index(es), POST mappings, merge,
-   cleave, split-supervoxel and renumber keep the state consistent, for every layout, under the
-   contracts of [op_guard] (for the two ingest posts: "the posted data agrees with the voxels",
-   made precise there). *)
+   cleave, split-supervoxel, renumber and the split of a body (SplitLabels) keep the state
+   consistent, for every layout and every split volume, under the contracts of [op_guard] (for the
+   two ingest posts: "the posted data agrees with the voxels", made precise there; for the body
+   split: [split_guard], spelled out in C08_split_guard_is below). *)
 Theorem C08_consistent_step : forall fx n st o st',
   N.of_nat n < 2 ^ 31 -> Inv n st -> op_guard fx n st o ->
   fstep fx (mapped (f_map st)) st o = Ok st' -> Inv n st'.
 Proof. exact consistent_step. Qed.
 Print Assumptions C08_consistent_step.
 
-(* not closed as single steps: ingest-supervoxels (no indexing: the state after it is inconsistent
-   until the indices follow -- the bulk load as a whole is C08_offline_ingest_consistent below) and
-   the split of a body (SplitLabels; the route is off in the server; the missing lemmas are listed
-   at consistent_step_partial in Proofs/LabelMap.v). *)
+(* the guard of OSplit body newl masks sm, in full: the new body id is non-zero and has no index; at
+   most one mask per block; keys, split ids and remain ids of the split map are pairwise distinct;
+   every supervoxel of the split map is non-zero and mapped to the body, its split and remain ids
+   are non-zero and have no stored voxel; some voxel of a supervoxel of the split map lies under
+   its block's mask (the split volume is not empty on the body). *)
+Theorem C08_split_guard_is : forall fx n st body newl masks sm,
+  op_guard fx n st (OSplit body newl masks sm) <->
+  (newl <> 0 /\ get_idx st newl = None /\
+   NoDup (map fst masks) /\
+   NoDup (flat_map (fun e => [fst e; fst (snd e); snd (snd e)]) sm) /\
+   (forall s sp re, In (s, (sp, re)) sm ->
+      s <> 0 /\ mapped (f_map st) s = body /\
+      (sp <> 0 /\ forall b, vcount st b sp = 0) /\ (re <> 0 /\ forall b, vcount st b re = 0)) /\
+   (exists b s sp re, In (s, (sp, re)) sm /\
+      0 < match aget N.eqb b (f_vox st) with
+          | Some arr => count_masked arr (match aget N.eqb b masks with Some m => m | None => [] end) s
+          | None => 0
+          end)).
+Proof. intros. reflexivity. Qed.
+Print Assumptions C08_split_guard_is.
+
+(* the boolean contract Model.LabelMapRun evaluates on every body split the server accepted in the
+   driver's histories implies the guard *)
+Theorem C08_split_guard_b_sound : forall st body newl masks sm,
+  split_guard_b st body newl masks sm = true -> split_guard st body newl masks sm.
+Proof. exact split_guard_b_sound. Qed.
+Print Assumptions C08_split_guard_b_sound.
+
+(* the body split alone: Consistent is kept (no bound on the block volume is needed) *)
+Theorem C08_consistent_split : forall st body newl masks sm st',
+  Consistent st -> split_guard st body newl masks sm ->
+  f_split st body newl masks sm = Ok st' -> Consistent st'.
+Proof. exact consistent_split. Qed.
+Print Assumptions C08_consistent_split.
+
+(* voxel conservation of the body split: the two bodies together have the size the body had, no
+   supervoxel is listed by both, every other body keeps its index *)
+Theorem C08_split_voxel_conservation : forall st body newl masks sm st',
+  Consistent st -> split_guard st body newl masks sm ->
+  f_split st body newl masks sm = Ok st' ->
+  o_size st' body + o_size st' newl = o_size st body /\
+  (forall x, ~ (In x (o_supervoxels st' body) /\ In x (o_supervoxels st' newl))) /\
+  (forall l, l <> body -> l <> newl -> o_index st' l = o_index st l).
+Proof. exact split_voxel_conservation. Qed.
+Print Assumptions C08_split_voxel_conservation.
+
+(* the sizes add up for every accepted split, guard or not (splitIndex loses nothing) *)
+Theorem C08_split_sizes : forall st body newl masks sm st',
+  newl <> body -> get_idx st newl = None ->
+  f_split st body newl masks sm = Ok st' ->
+  o_size st' body + o_size st' newl = o_size st body /\
+  (forall l, l <> body -> l <> newl -> get_idx st' l = get_idx st l).
+Proof. exact split_sizes. Qed.
+Print Assumptions C08_split_sizes.
+
+(* the scan lemmas behind it.  Relabelling a block: per label x, the voxels that keep x plus, for
+   every split supervoxel s, its voxels under the mask if x is s's split id and its voxels outside
+   the mask if x is s's remain id -- for every array, mask and split map with unique keys. *)
+Theorem C08_occ_relabel_split : forall sm, NoDup (map fst sm) -> forall arr mask x,
+  occ (relabel_split arr mask sm) x = relabel_count sm arr mask x.
+Proof. exact occ_relabel_split. Qed.
+Print Assumptions C08_occ_relabel_split.
+
+(* splitIndex, pointwise: what the kept and the split-off index hold per block and supervoxel *)
+Theorem C08_split_index_spec : forall sm bs,
+  NoDup (map fst sm) -> NoDup (map (fun e => fst (snd e)) sm) -> NoDup (map (fun e => snd (snd e)) sm) ->
+  (forall b s sp n, aget key_eqb (b, s) bs = Some (sp, n) -> 0 < n /\ exists re, aget N.eqb s sm = Some (sp, re)) ->
+  forall idx ridx sidx, Wf idx ->
+  (forall s sp re, In (s, (sp, re)) sm -> sv_in idx re = false) ->
+  split_index idx bs sm = Ok (ridx, sidx) ->
+  Wf ridx /\ Wf sidx /\
+  (forall b x, cnt ridx b x = rem_formula sm bs idx b x) /\
+  (forall b x, cnt sidx b x = spl_formula sm bs idx b x).
+Proof. exact split_index_spec. Qed.
+Print Assumptions C08_split_index_spec.
+
+(* non-vacuity: a consistent state, a split whose guard holds, accepted, and what it answers *)
+Example C08_split_example :
+  exists st', Inv 4 exS0 /\ op_guard all_fixed 4 exS0 exSplit /\
+              fstep all_fixed (mapped (f_map exS0)) exS0 exSplit = Ok st' /\ Inv 4 st' /\
+              (o_size exS0 1, o_size st' 1, o_size st' 10, o_supervoxels st' 1, o_supervoxels st' 10,
+               aget N.eqb 0 (f_vox st')) = (2, 1, 1, [12], [11], Some [11; 12; 2; 0]).
+Proof. exact split_example. Qed.
+
+(* not closed as a single step: ingest-supervoxels (no indexing: the state after it is inconsistent
+   until the indices follow -- the bulk load as a whole is C08_offline_ingest_consistent below). *)
 Theorem C08_consistent_step_partial : forall fx n st o st',
   N.of_nat n < 2 ^ 31 -> Inv n st ->
   match o with
-  | OStore _ | OSplit _ _ _ _ => Inv n st'
+  | OStore _ => Inv n st'
   | _ => op_guard fx n st o
   end ->
   fstep fx (mapped (f_map st)) st o = Ok st' -> Inv n st'.
